@@ -456,7 +456,9 @@ Proof.
   destruct ok; [apply ftct_safe; jdone|]. mrun.
   destruct (p_rcfg (d_p s2)) as [r'|] eqn:Hr; [|mfin; jdone].
   destruct (r_check_limit r' <=? p_check_count (d_p s2) + 1).
-  - eapply post_bind; [apply declare_fault_safe; jdone | intros; assumption | intros; mfin; assumption].
+  - (* F34 repair: with the handler IGNORE the call continues into the counting branch *)
+    mrun. eapply post_bind; [apply declare_fault_Jp; jdone | intros s3 [Hi| ->]; jdone |].
+    intros fh s3 [Hn3 _]. mrun. destruct (fh =? FH_IGNORE); [flast | mfin; jdone].
   - flast.
 Qed.
 
@@ -927,12 +929,41 @@ Proof.
   - srun. sfin. kdone.
 Qed.
 
+(* an ignored fault leaves the handler as it is (F34 repair: the callers carry on in that case) *)
+Lemma cfg_declare_fault_s : forall c, MInv s_cfg Any (declare_fault_s c).
+Proof. intro c. sminv. Qed.
+
+Lemma declare_fault_s_ign : forall c s, NIs s -> fault_ignored (s_cfg s) c = true ->
+  post (fun _ => NIs) NIs (declare_fault_s c s).
+Proof.
+  intros c s H Hig. unfold declare_fault_s. srun. unfold fault_ignored in Hig.
+  destruct (q_tid (s_p s)) as [[a b]|]; [|sfin; nis].
+  destruct (get_fault_handler (l_faults (s_cfg s)) c) as [h|]; [|discriminate Hig].
+  apply Z.eqb_eq in Hig. subst h.
+  change (FH_IGNORE =? FH_CANCEL) with false. change (FH_IGNORE =? FH_ABANDON) with false. cbv iota.
+  srun. sfin. nis.
+Qed.
+
+Lemma declare_fault_s_spec2 : forall c s, NIs s ->
+  post (fun _ s' => K s' /\ (fault_ignored (s_cfg s') c = true -> NIs s')) K0 (declare_fault_s c s).
+Proof.
+  intros c s H. pose proof (declare_fault_s_spec c s H) as X.
+  pose proof (minv_state _ _ _ s (cfg_declare_fault_s c)) as Hc.
+  pose proof (declare_fault_s_ign c s H) as Y. unfold post, postx in *.
+  destruct (declare_fault_s c s) as [s1 [u|e]]; cbn [fst] in Hc; [|exact X].
+  split; [exact X|]. rewrite Hc. exact Y.
+Qed.
+
 Lemma handle_positive_ack_procedures_s_spec : forall s, NIs s -> post (fun _ => K) K0 (handle_positive_ack_procedures_s s).
 Proof.
   intros s H. unfold handle_positive_ack_procedures_s. srun.
   destruct (q_ack_timer (s_p s)) as [tm|]; [|sfin; kdone].
   sfstep. srun. destruct (negb (timed_out (e_now (s_env s')) tm)); [sfin; kdone|]. srun.
-  destruct (r_ack_limit a <=? q_ack_counter (s_p s') + 1); [apply declare_fault_s_spec; nis | sflast].
+  destruct (r_ack_limit a <=? q_ack_counter (s_p s') + 1); [|sflast].
+  (* F34 repair: with the handler IGNORE the procedure carries on (timer, counter, EOF again) *)
+  eapply post_bind; [apply declare_fault_s_spec2; nis | intros; assumption |].
+  intros u s2 [HK Hig]. srun.
+  destruct (fault_ignored (s_cfg s2) C_POS_ACK_LIMIT); [specialize (Hig eq_refl); sflast | sfin; exact HK].
 Qed.
 
 Lemma handle_waiting_for_ack_spec : forall pkt s, NIs s -> post (fun _ => K) K0 (handle_waiting_for_ack pkt s).
@@ -949,7 +980,11 @@ Proof.
   intros pkt s H. unfold handle_wait_for_finish. srun. sfstep. destruct a; [sfin; kdone|].
   destruct pkt as [[ | | | | | | | ]|]; try sflast; srun;
     (destruct (q_check_timer (s_p s')) as [tm|]; [|sfin; kdone]);
-    (destruct (timed_out (e_now (s_env s')) tm); [rewrite when_true; apply declare_fault_s_spec; nis | sfin; kdone]).
+    (destruct (timed_out (e_now (s_env s')) tm); [rewrite when_true | sfin; kdone]);
+    (* F34 repair: with the handler IGNORE the check timer is restarted *)
+    (eapply post_bind; [apply declare_fault_s_spec2; nis | intros; assumption |]);
+    intros u s2 [HK Hig]; srun;
+    (destruct (fault_ignored (s_cfg s2) C_CHECK_LIMIT); [specialize (Hig eq_refl); sflast | sfin; exact HK]).
 Qed.
 
 Lemma stage_s {B} V (m : SM unit) (rest : SM B) (Q : B -> src -> Prop) s :
